@@ -596,6 +596,63 @@ static void default_allocator_ctors() {
 	}
 }
 
+// ------------------------------------------------------------------ sizes and shapes the operation sequences do not reach
+// (a) vectors of several hundred thousand elements: copies, assignments and resizes that ask for far more than the current capacity
+// (b) containers whose elements contain such a container: the tree-collapse idiom `n.kids = std::move(n.kids[0].kids)` moves from a
+//     source that lives inside an element the destination owns (by-value assignment makes that safe; it has to stay safe)
+struct TNode { Elem tag; frg::vector<TNode, TrackedAlloc> kids; TNode(int v, TrackedAlloc a) : tag(v), kids(a) {} };
+struct TNodeS { int tag; std::vector<TNodeS> kids; };
+static void tree_sum(const frg::vector<TNode, TrackedAlloc> &v, std::vector<int> &out) { for(size_t i = 0; i < v.size(); i++) { out.push_back(v[i].tag.get()); tree_sum(v[i].kids, out); } }
+static void tree_sum(const std::vector<TNodeS> &v, std::vector<int> &out) { for(auto &n : v) { out.push_back(n.tag); tree_sum(n.kids, out); } }
+static void big_and_recursive() {
+	if(!want_mode("big-recursive")) return;
+	Rng r(derive_seed("big-recursive"));
+	for(long long i = opt.shard; i < (long long)scaled(60, 2000); i += opt.nshards) {
+		begin_case("big-recursive", i);
+		AllocState as; as.owner = "vector"; g_elems.owner = "vector";
+		if(i % 20 == 0) { // (a)
+			TrackedAlloc al(&as);
+			size_t n = 270000 + r.below(200000);
+			frg::vector<int, TrackedAlloc> big(al); std::vector<int> ref;
+			for(size_t k = 0; k < n; k++) { big.push_back((int)(k * 7)); } ref.resize(n); for(size_t k = 0; k < n; k++) ref[k] = (int)(k * 7);
+			frg::vector<int, TrackedAlloc> cp(big);
+			frg::vector<int, TrackedAlloc> asg(al); asg.push_back(1); asg = big;
+			frg::vector<int, TrackedAlloc> rs(al); for(int k = 0; k < 10; k++) rs.push_back(k); size_t m = 600000 + r.below(200000); rs.resize(m);
+			bool ok = cp.size() == n && asg.size() == n && rs.size() == m;
+			for(size_t k = 0; ok && k < n; k += 997) ok = cp[k] == ref[k] && asg[k] == ref[k];
+			ok = ok && cp[n - 1] == ref[n - 1] && asg[n - 1] == ref[n - 1] && rs[9] == 9 && rs[m - 1] == 0 && rs[10] == 0;
+			if(!ok) model_violation("vector", "large", strf("copy / assignment / resize of a vector of %zu (resize to %zu) elements does not hold the reference's content", n, m));
+			count("large_vector_cases");
+		} else { // (b)
+			TrackedAlloc al(&as);
+			frg::vector<TNode, TrackedAlloc> roots(al); std::vector<TNodeS> sroots;
+			int next = 1;
+			// a random tree of depth <= 3
+			for(int a = 0, na = 1 + (int)r.below(3); a < na; a++) {
+				roots.emplace_back(next, al); sroots.push_back({next, {}}); next++;
+				for(int b = 0, nb = (int)r.below(4); b < nb; b++) {
+					roots[a].kids.emplace_back(next, al); sroots[a].kids.push_back({next, {}}); next++;
+					for(int c2 = 0, nc = (int)r.below(4); c2 < nc; c2++) { roots[a].kids[b].kids.emplace_back(next, al); sroots[a].kids[b].kids.push_back({next, {}}); next++; }
+				}
+			}
+			for(int step = 0; step < 4; step++) {
+				size_t a = r.below(roots.size());
+				if(roots[a].kids.size() == 0) continue;
+				size_t b = r.below(roots[a].kids.size());
+				if(r.chance(1, 2)) { roots[a].kids = std::move(roots[a].kids[b].kids); auto tmp = std::move(sroots[a].kids[b].kids); sroots[a].kids = std::move(tmp); }
+				else { frg::vector<TNode, TrackedAlloc> cpy(roots[a].kids[b].kids); roots[a].kids = cpy; auto tmp = sroots[a].kids[b].kids; sroots[a].kids = tmp; }
+				std::vector<int> got, want; tree_sum(roots, got); tree_sum(sroots, want);
+				if(got != want) { model_violation("vector", "source-inside-own-element", "after n.kids = std::move(n.kids[i].kids) (or the copying form) the tree does not hold the nodes the reference tree holds"); break; }
+				if(g_elems.alive.size() != want.size()) { lifetime_violation("elem:count:vector-tree", strf("%zu tag objects alive for a tree of %zu nodes after collapsing a level", g_elems.alive.size(), want.size())); break; }
+			}
+			count("recursive_vector_cases");
+		}
+		expect_no_elems("after destroying the vectors of the large / recursive case");
+		expect_no_blocks(as, "after the large / recursive case");
+		note_distinct(mix(hash_str("big-recursive"), i));
+	}
+}
+
 // ---- an intrusive list (and its nodes) with static storage duration that is filled while other namespace-scope objects are still
 // being constructed (driver registries, the kernel's list of CPUs): list and hook have constexpr constructors, so both are
 // constant-initialised and what the constructor of an *earlier* global linked is still linked when main() starts.
@@ -642,5 +699,6 @@ int main(int argc, char **argv) {
 	float_equality();
 	init_form();
 	default_allocator_ctors();
+	big_and_recursive();
 	return finish();
 }
